@@ -20,6 +20,51 @@ class Oracle9(c03_oracle.Oracle):
     def __init__(self):
         super().__init__(module='WalletKeysEval', cfg='Eval.cfg', max_rounds=12)
 
+    def judge(self, recs, procs=4):
+        """As Oracle.judge, with a fixed small number of TLC processes per round (one JVM start costs more CPU than
+        a hundred records)."""
+        recs = list(recs)
+        facts = [[] for _ in recs]
+        verdicts = [None] * len(recs)
+        pending = list(range(len(recs)))
+        rounds = 0
+        import time as _t
+        while pending:
+            rounds += 1
+            if rounds > self.max_rounds:
+                raise common.MachineryError('oracle loop of %s did not converge in %d rounds' % (self.module, self.max_rounds))
+            batch = [dict(recs[i], facts=facts[i]) for i in pending]
+            t0 = _t.time()
+            out = common.tlc_eval(self.module, batch, cfg=self.cfg, procs=max(1, min(procs, (len(batch) + 79) // 80)))
+            t1 = _t.time()
+            self.tlc_runs += 1
+            nxt, asked = [], []
+            for i, o in zip(pending, out):
+                if o['v'] == 'need':
+                    if not o['need']:
+                        raise common.MachineryError('specification asked for nothing')
+                    asked.append((i, o['need']))
+                    nxt.append(i)
+                else:
+                    verdicts[i] = o
+            self._answer([q for _, qs in asked for q in qs])
+            if common.os.environ.get('VERIF_DEBUG'):
+                print('DEBUG oracle round %d: %d records, tlc %.1fs, primitives %.1fs' % (rounds, len(batch), t1 - t0, _t.time() - t1))
+            for i, qs in asked:
+                have = set(c03_oracle._key(x) for x in facts[i])
+                new = set()
+                for q in qs:
+                    k = c03_oracle._key(q)
+                    if k in have:
+                        raise common.MachineryError('specification asked twice for %r' % (q,))
+                    if k in new:
+                        continue
+                    new.add(k)
+                    facts[i].append({'f': q['f'], 'a': q['a'], 'o': self.cache[k]})
+            pending = nxt
+        self.rounds = max(self.rounds, rounds)
+        return verdicts
+
     def _answer(self, qs):
         todo = {}
         for q in qs:
